@@ -57,7 +57,11 @@ func (c *conn) opts(r *hx.Run) []byte {
 	return o
 }
 
-var wrapPoints = []uint32{0, 1000, 0x7fffff00, 0x7ffffff0, 0x80000000, 0xffffff00, 0xfffffff0, 0xffffffff}
+// initial sequence numbers: next to 0, 2^31 and 2^32, and one to two receive windows (4 KiB / 64 KiB buffers) below
+// 2^31 and 2^32, so that the advertised right edge lies before the wrap while the next one lies behind it
+var wrapPoints = []uint32{0, 1000, 0x7fffff00, 0x7ffffff0, 0x80000000, 0xffffff00, 0xfffffff0, 0xffffffff,
+	0xffffffff - 5000, 0xffffffff - 7000, 0xffffffff - 70000, 0xffffffff - 100000,
+	0x7fffffff - 5000, 0x7fffffff - 7000, 0x7fffffff - 70000, 0x7fffffff - 100000}
 
 func pickISN(r *hx.Run) uint32 {
 	if r.R.Intn(3) == 0 {
